@@ -183,6 +183,20 @@ let store_snap (st : state) =
       ^ "@" ^ show_addr im.s_a4 ^ "/" ^ show_addr im.s_a6 ^ "/" ^ show_item im.s_ad) st.st_prov.store in
   "S[" ^ String.concat "," (sorted ims) ^ "]"
 
+(* "benign" mode (argv[3] = "benign"): follow the implementation with the extracted [Head] and evaluate the hypothesis
+   of C02_head_unique / C02_head_told_is_recorded literally - at every step, step Head st o = step Repaired st o
+   (structural equality of the candidate lists) - and report per case whether the whole history is benign. *)
+let benign_mode = ref false
+let benign_bad = ref 0
+let benign_steps = ref 0
+let unsafe_steps = ref 0     (* steps that do not meet the input-level condition [safe_step] of HeadSafe.v *)
+let chk_benign (st : state) (o : op) =
+  if !benign_mode then begin
+    incr benign_steps;
+    if step head st o <> step repaired st o then incr benign_bad;
+    if not (safe_step st o) then incr unsafe_steps
+  end
+
 (* Property monitor, evaluated after EVERY op of EVERY case in the run against [repaired]: two live sessions of one
    routing domain holding the same address, or delegated prefixes that overlap (containment, any lengths).  The
    marker makes the case a mismatch even when implementation and model agree on everything else. *)
@@ -207,6 +221,7 @@ let rec run_ops variant (st : state) ops : (state * string list) list =
   match ops with
   | [] -> [(st, [])]
   | (o, kind) :: rest ->
+    chk_benign st o;
     List.concat_map (fun (st', ot) ->
         let tok = match ot with
           | OId (_, IdTold x, _) -> [kind ^ ":" ^ dn x]
@@ -409,6 +424,7 @@ let () =
       (match Sys.argv.(3) with
        | "defective" -> defective
        | "repaired" -> repaired
+       | "benign" -> benign_mode := true; head
        | v when String.length v = 10 && v.[0] = 'v' ->
          { d1 = (v.[1] = '1'); d2 = (v.[2] = '1'); d3 = (v.[3] = '1'); d4 = (v.[4] = '1'); d5 = (v.[5] = '1');
            d6 = (v.[6] = '1'); d7 = (v.[7] = '1'); d8 = (v.[8] = '1'); d9 = (v.[9] = '1') }
@@ -421,7 +437,9 @@ let () =
         let isegs = match impls with
           | Some l -> (match List.nth_opt l idx with Some il -> Array.of_list (split_segs il) | None -> [||])
           | None -> [||] in
-        print_endline (run_case_b variant line isegs)
+        benign_bad := 0; benign_steps := 0; unsafe_steps := 0;
+        let out = run_case_b variant line isegs in
+        print_endline (if !benign_mode then Printf.sprintf "benign=%d safe=%d steps=%d" (if !benign_bad = 0 then 1 else 0) (if !unsafe_steps = 0 then 1 else 0) !benign_steps else out)
       end else
       let parts = split_segs line in
       let st0 = parse_cfg (tokens (List.hd parts)) in
@@ -429,6 +447,7 @@ let () =
         | Some l -> (match List.nth_opt l idx with Some il -> Array.of_list (split_segs il) | None -> [||])
         | None -> [||] in
       let st = ref st0 in
+      benign_bad := 0; benign_steps := 0; unsafe_steps := 0;
       let res = ref ["init | " ^ snap st0 ^ " | " ^ psnap st0 ^ " | " ^ psnap6 st0] in
       let k = ref 1 in
       List.iter (fun otxt ->
@@ -442,6 +461,7 @@ let () =
                  let rq = match List.find_opt (fun s -> s.s_id = sid) !st.st_sess with Some s -> s.s_told | None -> None in
                  ID (true, b, rq, sid, vrf, s4, o4)
                | o -> o in
+             chk_benign !st o;
              let cands = step variant !st o in
              let want = if !k < Array.length isegs then Some isegs.(!k) else None in
              let pick = match want with
@@ -454,5 +474,6 @@ let () =
              res := (seg s' ot ^ (if variant = repaired then dup_marker s' else "")) :: !res; st := s');
           incr k
         end) (List.tl parts);
-      print_endline (String.concat " ; " (List.rev !res))
+      print_endline (if !benign_mode then Printf.sprintf "benign=%d safe=%d steps=%d" (if !benign_bad = 0 then 1 else 0) (if !unsafe_steps = 0 then 1 else 0) !benign_steps
+                     else String.concat " ; " (List.rev !res))
     with e -> print_endline ("MODELERROR " ^ Printexc.to_string e)) cases
